@@ -234,6 +234,52 @@ def laplacians(ctx, p):
                 ctx.require(ok, "adjacency tensor differs from its definition")
 
 
+def _psd(ctx, L, tag, what):
+    """for every real vector x: x^T L x >= 0 (decided by z3 over the reals on the matrix the
+    library returned, entries taken exactly; tolerance 1e-9 |x|^2 for the float entries)"""
+    n = L.shape[0]
+    if n == 0:
+        return
+    ctx.require(bool(np.allclose(L, L.T)), f"{what} is not symmetric")
+    x = [ctx.real(f"x_{tag}_{i}", -1, 1) for i in range(n)]
+    q = 0
+    nrm = 0
+    for i in range(n):
+        nrm = x[i] * x[i] + nrm
+        for j in range(n):
+            if L[i, j] != 0:
+                q = x[i] * x[j] * float(L[i, j]) + q
+    ctx.require(q >= nrm * (-1e-9), f"{what} is not positive semidefinite (a vector x with x^T L x < 0 exists)")
+
+
+@harness("C12.psd", raises_are_violations=True)
+def psd(ctx, p):
+    shape = _shape(p["shape"])
+    N, M, edges = shape
+    H, nl, el, c = _build(ctx, p, shape)
+    d = 1 + ctx.choose("order", 3)
+    rescale = ctx.flag("rescale_per_node")
+    wt = ctx.flag("weighted")
+    ctx.info["op"] = "laplacians (positive semidefiniteness)"
+    ctx.info["args"] = {"order": d, "rescale_per_node": rescale, "weighted": wt}
+    allE = [set(e) for e in edges]
+    with warnings.catch_warnings():
+        warnings.simplefilter("ignore")
+        L = dense(xgi.laplacian(H, order=d, sparse=False, rescale_per_node=rescale))
+        Lm = dense(xgi.multiorder_laplacian(H, [1, 2, 3], [1.0, 2.0 if wt else 0.0, 0.5], sparse=True, rescale_per_node=rescale))
+        Ln = None
+        iso = any(not any(a in e for e in allE) for a in range(N))
+        if N > 0 and M > 0 and not iso and not any(len(e) == 0 for e in allE):
+            if wt:
+                for j, e in enumerate(el):
+                    H._edge_attr[e]["weight"] = 2.5 if j == 0 else 0.5
+            Ln = dense(xgi.normalized_hypergraph_laplacian(H, weighted=wt, sparse=False))
+    _psd(ctx, L, "d", "order-d Laplacian")
+    _psd(ctx, Lm, "m", "multi-order Laplacian (non-negative weights)")
+    if Ln is not None:
+        _psd(ctx, Ln, "n", "normalised Laplacian")
+
+
 def spec(tier, seed):
     if tier == "quick":
         shp = shapes.shapes_H_upto(3, 3) + shapes.shapes_H(4, 2)
@@ -243,6 +289,8 @@ def spec(tier, seed):
     for s in shp:
         units.append(("C12.matrices", {"shape": s}))
         units.append(("C12.laplacians", {"shape": s}))
+        if s[0] and s[1]:
+            units.append(("C12.psd", {"shape": s}))
         if s[0] and s[1] and (tier != "quick" or s[0] <= 3):
             # the same state reached through a history on one object (caches keyed by object or size)
             units.append(("C12.matrices", {"shape": s, "warm": True}))
@@ -251,9 +299,9 @@ def spec(tier, seed):
         "units": units,
         "caps": {"paths": 50000, "wall": 900},
         "level": "other",
-        "explanation": "The numeric kernels are scipy/numpy and a symbolic value cannot cross into them, so shapes (all hypergraph incidence structures up to isomorphism within the bound, including isolated nodes, empty/duplicate/singleton edges) and the option grid are enumerated; what z3 quantifies is the labelling - node labels and edge ids are unbounded solver integers, so every statement 'with the returned index maps' is decided for all integer labelings at once (this is where a label-as-position confusion shows) - and the small parameters order, s, weighted, sparse, rescale_per_node, normalized are solver-chosen forks. Oracles are brute-force matrices from the incidence shape. Positive semidefiniteness is not decided (eigenvalues are floating point); it follows from symmetry and the B^T B form.",
+        "explanation": "The numeric kernels are scipy/numpy and a symbolic value cannot cross into them, so shapes (all hypergraph incidence structures up to isomorphism within the bound, including isolated nodes, empty/duplicate/singleton edges) and the option grid are enumerated; what z3 quantifies is the labelling - node labels and edge ids are unbounded solver integers, so every statement 'with the returned index maps' is decided for all integer labelings at once (this is where a label-as-position confusion shows) - and the small parameters order, s, weighted, sparse, rescale_per_node, normalized are solver-chosen forks. Oracles are brute-force matrices from the incidence shape. Positive semidefiniteness (C12.psd) is decided by z3 over the reals: the matrix the library returned is taken entry by entry as exact rationals and the query 'exists x with x^T L x < -1e-9 |x|^2' must be unsat (nonlinear real arithmetic, N <= 4 unknowns); a model is a concrete vector, replayed with numpy.",
         "bounds": {"shapes": f"{len(shp)} shapes", "order": "None, 0..3", "s": "1..3", "laplacian order": "1..3", "multi-order": "orders [1,2,3], weights [1, w, 0.5], w in {1,2}",
                    "histories": "each shape also reached on one object from the complementary incidence after every matrix function ran once (same node and edge counts)"},
         "assumptions": ["labels: unbounded integers", "floats compared with relative tolerance 1e-9"],
-        "outside": ["positive semidefiniteness", "string labels", "custom incidence weight functions"],
+        "outside": ["string labels", "custom incidence weight functions"],
     }
